@@ -78,6 +78,54 @@ fn edited_host_for(ws: &Workspace, fi: usize) -> ide::AnalysisHost {
     host
 }
 
+/// A host that holds `ws` after a further module - one that uses a public function of `ws` - was
+/// loaded through the server's document store and then deleted again (`Vfs::remove_uri`, followed
+/// by the next edit of another document): no answer may name the deleted file any more.
+fn deleted_file_host(ws: &Workspace) -> Option<ide::AnalysisHost> {
+    // a public function to use: `pub fn NAME(` in some module
+    let (mi, fname) = ws.files.iter().enumerate().find_map(|(i, f)| {
+        f.module.as_ref()?;
+        let at = f.text.find("pub fn ")? + 7;
+        let name: String = f.text[at..].chars().take_while(|c| c.is_ascii_alphanumeric() || *c == '_').collect();
+        if name.is_empty() || !f.text[at + name.len()..].starts_with('(') {
+            return None;
+        }
+        Some((i, name))
+    })?;
+    let module = ws.files[mi].module.clone()?;
+    if ws.files.iter().any(|f| f.text.contains('\r')) {
+        return None;
+    }
+    let acc = module.rsplit('/').next()?.to_string();
+    let pkg = ws.files[mi].pkg;
+    let root = ws.packages.get(pkg)?.root.clone();
+    let mut ws2 = ws.clone();
+    ws2.files.push(crate::gen::scoped::WsFile {
+        path: format!("{}/src/zzdeleted.gleam", root),
+        pkg,
+        text: format!("import {}\n\n// padding, so that offsets in here lie beyond the end of short files: é💣 é💣 é💣 é💣 é💣 é💣\npub fn zzuser() {{\n  {}.{}()\n}}\n", module, acc, fname),
+        module: Some("zzdeleted".into()),
+    });
+    let mut vfs = glas::verif::Vfs::new();
+    for (i, f) in ws2.files.iter().enumerate() {
+        let id = vfs.set_path_content(ide::VfsPath::new(&f.path), f.text.clone());
+        if id.0 as usize != i {
+            return None;
+        }
+    }
+    vfs.set_roots(roots_of(&ws2));
+    vfs.set_package_graph(Some(graph_of(&ws2)));
+    let mut host = ide::AnalysisHost::new();
+    host.apply_change(vfs.take_change());
+    // make sure the extra module is analysed before it goes away
+    let _ = host.snapshot().diagnostics(ide::FileId(ws.files.len() as u32));
+    let url = vfs.uri_for_file(ide::FileId(ws.files.len() as u32));
+    vfs.remove_uri(&url).ok()?;
+    vfs.change_file_content(ide::FileId(mi as u32), None, &ws.files[mi].text).ok()?;
+    host.apply_change(vfs.take_change());
+    Some(host)
+}
+
 fn check_answer(ws: &Workspace, toks: &[BTreeSet<(u32, u32)>], conv: &Conv, q: &Q, file: u32, pos: u32, a: &Answer) -> Result<u64, Failure> {
     let case = || json!({"workspace": ws_json(ws), "query": format!("{:?}", q), "file": file, "offset": pos});
     let mut n = 0u64;
@@ -174,9 +222,13 @@ impl Property for C20 {
             // now and then the workspace is reached through an edit: one change that carries two
             // successive contents of a file (what a didChange with several content changes queues),
             // the first of them longer than the final text
+            let hmode = crate::engine::choices::hash_str(&hex(bytes)) % 8;
             let host = if c.chance(70) {
                 ctx.class("workspace reached through a change with two contents for one file");
                 edited_host(&ws, &mut c)
+            } else if let Some(h) = (hmode == 0).then(|| deleted_file_host(&ws)).flatten() {
+                ctx.class("workspace after a module that used it was deleted through the document store");
+                h
             } else {
                 build_host(&ws)
             };
@@ -200,8 +252,35 @@ impl Property for C20 {
             ctx.sample("workspace", || json!({"files": ws.files.iter().filter(|f| f.module.is_some()).map(|f| json!({"path": f.path, "text": clip(&f.text, 200)})).collect::<Vec<_>>()}));
             Ok(())
         });
+        // (c) the ranges of multi-file answers as the real server sends them: rename over LSP on
+        // project trees (C17's generator and session); only what concerns ranges is judged here -
+        // every edit must name a workspace file and select, in the client's document, the old name
+        if std::path::Path::new(&crate::engine::lsp::glas_bin()).exists() {
+            let lsp_cases = ctx.tier.pick(400, 6_000);
+            ctx.run_streams("c20-lsp-rename", lsp_cases, 500, |ctx, bytes| {
+                match super::c17::run_tree_mode(ctx, bytes, true) {
+                    Err(f) if f.sig.get("kind").map(|k| k == "rename-edit-range").unwrap_or(false) => {
+                        let mut f = f;
+                        f.case = json!({"lsp_rename_stream": hex(bytes)});
+                        Err(f)
+                    }
+                    _ => {
+                        ctx.class("rename session against the real server (edit ranges judged)");
+                        Ok(())
+                    }
+                }
+            });
+        } else {
+            ctx.inconclusive.push(format!("glas binary not found at {} (run through ./check): the LSP rename stage was skipped", crate::engine::lsp::glas_bin()));
+        }
     }
     fn replay(&self, ctx: &mut Ctx, case: &Value) -> Result<(), Failure> {
+        if let Some(h) = case.get("lsp_rename_stream").and_then(|s| s.as_str()) {
+            return match super::c17::run_tree_mode(ctx, &unhex(h), true) {
+                Err(f) if f.sig.get("kind").map(|k| k == "rename-edit-range").unwrap_or(false) => Err(f),
+                _ => Ok(()),
+            };
+        }
         let ws = if let Some(h) = case.get("stream").and_then(|s| s.as_str()) {
             let bytes = unhex(h);
             let mut c = Choices::new(&bytes);
